@@ -62,6 +62,18 @@ def _tree_text(t, gmap, top=True):
 ANNVAL = {1: "1", 2: "2", 3: ["1.1.1.27", "1.1.1.2"], 4: "4", 5: ["21765", "1765", "10108"]}
 
 
+def _tol_token(x, what, inexact):
+    """k for a tolerance of 10^-k; 0 (and a note) for anything else"""
+    try:
+        k = int(round(-math.log10(float(x))))
+        if 1 <= k <= 12 and abs(float(x) - 10.0 ** -k) <= 1e-6 * 10.0 ** -k:
+            return k
+    except (TypeError, ValueError):
+        pass
+    inexact.append("tolerance:%s:bad" % what)
+    return 0
+
+
 def _ann_token(val):
     if isinstance(val, str) and val.isdigit() and ANNVAL.get(int(val), val) == val:
         return int(val)
@@ -229,7 +241,11 @@ class ModelDriver:
                 raise Skip("no open context")
             if self.ctx_ids.get(s):
                 self.ctx_ids[s].pop()
-            model.__exit__(None, None, None)
+            if op.get("exc"):       # the block ends by an exception
+                err = RuntimeError("raised inside the with block")
+                model.__exit__(RuntimeError, err, None)
+            else:
+                model.__exit__(None, None, None)
             return None
         if a == "Copy":
             t = op["t"]
@@ -504,6 +520,9 @@ class ModelDriver:
                 out[r] = self.num(med[c], self.scale, "med:" + r, inexact) if c in med else MISSING
             extra = sorted(k for k in med if k not in self.rrx)
             return {"med": out, "n": len(extra) + len(inexact)}
+        if a == "SetTolerance":
+            model.tolerance = 10.0 ** -op["k"]
+            return None
         if a == "SwitchSolver":
             model.solver = op["solver"]
             return None
@@ -888,6 +907,10 @@ class ModelDriver:
                 inexact.append("objective:stale-variable")
         except Exception as e:
             inexact.append("objective:%s" % type(e).__name__)
+        o["tol"] = _tol_token(model.tolerance, "model", inexact)
+        tols = model.solver.configuration.tolerances
+        o["lp"]["tolf"] = _tol_token(getattr(tols, "feasibility", None), "feasibility", inexact)
+        o["lp"]["toli"] = _tol_token(getattr(tols, "integrality", None), "integrality", inexact)
         o["ctx"] = len(model._contexts)
         o["solver"] = self.cobra.util.solver.interface_to_str(model.problem)
         o["inexact"] = sorted(set(inexact))
